@@ -10,10 +10,10 @@ from symsig.scalar import B
 PROPERTY = "C13"
 FUNCTIONS = ["sigpy.alg.GradientMethod.__init__/_update", "sigpy.alg.PrimalDualHybridGradient.__init__/_update", "sigpy.prox.{L1Reg,L2Reg,BoxConstraint,NoOp}",
              "sigpy.util.axpy", "sigpy.backend.copyto"]
-BOUNDS = {"quick": "f = 0.5||Ax-b||^2 with concrete rational A (1x1, 2x1), g in {0, l1, l2^2, box}; n = 1; one update from an ARBITRARY symbolic state "
+BOUNDS = {"quick": "f = 0.5||Ax-b||^2 with an ARBITRARY one-column A (1x1, 2x1: entries are solver variables, L = sum of squares) and concrete rational A (1x1, 2x1), g in {0, l1, l2^2, box}; n = 1; one update from an ARBITRARY symbolic state "
                    "(x, and z, t >= 1 when accelerated); PDHG: n = m = 1, scalar and array steps, theta=1 and both accelerated branches",
           "thorough": "adds n = 2 (A 2x2 diagonal and dense) for the gradient lemmas and PDHG with A 2x1 / 1x2"}
-OUTSIDE = ["n = 2 with a thresholded prox (l1, box): the three-point / metric inequalities are beyond z3's budget there (unknown or > 1 h); n = 2 is "
+OUTSIDE = ["arbitrary 2x1 A with l1 (three-point inequality unknown in z3), arbitrary A with two or more columns", "n = 2 with a thresholded prox (l1, box): the three-point / metric inequalities are beyond z3's budget there (unknown or > 1 h); n = 2 is "
            "decided for g in {0, l2}", "the limit statements themselves (the solver decides the one-step lemmas from which the rates follow by the standard telescoping argument)",
            "n > 2", "complex data (the lemmas are stated for real vectors; complex = real of twice the dimension)",
            "convergence of the accelerated PDHG variants as a limit statement"]
@@ -30,6 +30,13 @@ AMATS = {"id1": [[1]], "id2": [[1, 0], [0, 1]], "a1": [[2]], "a21": [[1], [2]], 
 
 
 def _A(name, V):
+    if name in ("s11", "s21"):
+        # ARBITRARY 1x1 / 2x1 operator: every entry a solver variable
+        m_ = int(name[1])
+        M = np.empty((m_, 1), dtype=object if V.symbolic else np.float64)
+        for i in range(m_):
+            M[i, 0] = V.scalar("a%d0" % i)
+        return M
     rows = AMATS[name]
     if V.symbolic:
         return S.lift_array(np.array([[Fraction(e) for e in r] for r in rows], dtype=object))
@@ -98,7 +105,7 @@ def h_grad(cfg, V):
     from sigpy import alg
     Amat = _A(cfg["A"], V)
     m, n = Amat.shape
-    Lb = _Lb(cfg["A"])
+    Lb = _Lb(cfg["A"]) if cfg["A"] in AMATS else sum(e * e for e in Amat[:, 0])     # one column: ||A^T A|| = sum of squares, exactly
     b = V.array("b", [m], False)
     x = V.array("x", [n], False)
     w = V.array("w", [n], False)
@@ -198,7 +205,7 @@ def h_pdhg(cfg, V):
     from sigpy import alg, prox
     Amat = _A(cfg["A"], V)
     m, n = Amat.shape
-    Lb = _Lb(cfg["A"])
+    Lb = _Lb(cfg["A"]) if cfg["A"] in AMATS else sum(e * e for e in Amat[:, 0])
     y = V.array("y", [m], False)
     g = _G(cfg["g"], n, V)
     proxg = g.prox if g.prox is not None else prox.NoOp([n])
@@ -357,6 +364,16 @@ def configs(tier, seed):
                     continue        # two thresholded coordinates: the three-point inequalities are `unknown` / exceed 1 h in z3 (stated in OUTSIDE)
                 out.append({"id": "grad:%s:g=%s:acc=%s" % (A, g, acc), "h": "grad", "A": A, "g": g, "acc": acc, "max_paths": 3000,
                             "cost": 10 ** n})
+    # ARBITRARY one-column operators (entries are solver variables; L = sum of squares exactly)
+    for A in ("s11", "s21"):
+        for g in ("none", "l1", "l2", "box"):
+            if A == "s21" and g == "l1":
+                continue        # three-point inequality `unknown` in z3 with an arbitrary 2x1 operator and the soft threshold: outside
+            for acc in (False, True):
+                out.append({"id": "grad:%s:g=%s:acc=%s" % (A, g, acc), "h": "grad", "A": A, "g": g, "acc": acc, "max_paths": 3000, "cost": 100})
+    for g in ("none", "l1", "l2", "box"):
+        out.append({"id": "pdhg-fixed:s11:g=%s:scalar:plain" % g, "h": "pdhg", "A": "s11", "g": g, "steps": "scalar", "mode": "plain", "what": "fixed", "max_paths": 3000})
+        out.append({"id": "pdhg-metric:s11:g=%s:scalar" % g, "h": "pdhg", "A": "s11", "g": g, "steps": "scalar", "mode": "plain", "what": "metric", "max_paths": 3000, "cost": 100})
     pm = ["a1"] + (["a21", "a12"] if full else [])
     for A in pm:
         for g in ("none", "l1", "l2", "box"):
